@@ -25,7 +25,7 @@ type c19Case struct {
 	Backend  string   `json:"backend"`
 }
 
-var c19Policies = []string{"vary-star", "vary-xa-star", "vary-xa", "vary-alternate-ab", "vary-alternate-none", "no-vary", "validate-each-round", "swr-each-round", "vary-star-validate", "status-alternate", "vary-alternate-xa-star", "vary-inm", "vary-by-request"}
+var c19Policies = []string{"vary-star", "vary-xa-star", "vary-xa", "vary-alternate-ab", "vary-alternate-none", "no-vary", "validate-each-round", "swr-each-round", "vary-star-validate", "status-alternate", "vary-alternate-xa-star", "vary-inm", "vary-by-request", "validate-304-other-vary"}
 
 func genC19(r *rand.Rand) c19Case {
 	c := c19Case{U: 1 + r.IntN(3), Policy: pick(r, c19Policies), DtS: pick(r, []float64{0, 1, 2, 5}), Backend: pick(r, []string{"mem", "mem", "mem", "fs"})}
@@ -90,6 +90,9 @@ func c19Vary(policy string, k int) (vary []string, distinct int) {
 		return []string{"If-None-Match, X-A"}, 1
 	case "vary-by-request":
 		return nil, 2 // (set per request in the handler)
+	case "validate-304-other-vary":
+		// full replies nominate two fields on one line; every 304 nominates one
+		return []string{"X-A, X-B"}, 2
 	}
 	return nil, 1
 }
@@ -146,6 +149,11 @@ func c19Run(r *run.Runner, c c19Case) {
 			if uc.Conditional() && k%2 == 0 {
 				return Render(&RespSpec{Status: 304, ETag: `"e"`, Vary: vary}, uc.Enter, uc.Serial)
 			}
+		case "validate-304-other-vary":
+			rs.CC = []string{"max-age=1"}
+			if uc.Conditional() {
+				return Render(&RespSpec{Status: 304, ETag: `"e"`, Vary: []string{"X-A"}}, uc.Enter, uc.Serial)
+			}
 		case "swr-each-round":
 			rs.CC = []string{"max-age=1, stale-while-revalidate=100000"}
 			if uc.Conditional() && k%2 == 0 {
@@ -178,7 +186,7 @@ func c19Run(r *run.Runner, c c19Case) {
 	if R < 16 {
 		R = 16
 	}
-	var foot []int
+	var foot, bigs []int
 	maxIdx := 0
 	sig := "policy=" + c.Policy
 	check := func(round int) bool {
@@ -196,6 +204,21 @@ func c19Run(r *run.Runner, c c19Case) {
 		}
 		if len(fp) > bound {
 			r.Violation("keys-exceed-bound", sig, fmt.Sprintf("after %d rounds the store holds %d keys, bound U*(1+H*V)=%d (U=%d,H=%d,V=%d); keys: %v", round, len(fp), bound, c.U, H, V, w.Store.FootprintKeys()), c)
+			return false
+		}
+		// the largest stored value: in a steady state (every request of the
+		// alphabet has been made round/1 times) it does not keep growing
+		big := 0
+		for _, n := range fp {
+			if n > big {
+				big = n
+			}
+		}
+		bigs = append(bigs, big)
+		// (growth that goes on at least in proportion to the rounds made - the second
+		// interval is twice the first - and is more than counters gaining digits)
+		if len(bigs) == 3 && bigs[1]-bigs[0] >= 8 && 2*(bigs[2]-bigs[1]) >= 3*(bigs[1]-bigs[0]) && bigs[2]-bigs[0] >= 48 {
+			r.Violation("value-grows", sig, fmt.Sprintf("the largest stored value grew from %d to %d to %d bytes between rounds R/4, R/2 and R=%d of the same requests (every reply of the origin has the same size)", bigs[0], bigs[1], bigs[2], round), c)
 			return false
 		}
 		if maxIdx > H*V {
@@ -241,7 +264,7 @@ func c19Run(r *run.Runner, c c19Case) {
 	r.Count("policy:"+c.Policy, 1)
 	r.Count("requests", req)
 	if r.WantSample() {
-		r.Sample(map[string]any{"case": c, "rounds": R, "bound_keys": bound, "footprint_keys_at_R/4_R/2_R": foot, "max_index_records": maxIdx, "bound_index": H * V})
+		r.Sample(map[string]any{"case": c, "rounds": R, "bound_keys": bound, "footprint_keys_at_R/4_R/2_R": foot, "largest_value_bytes_at_R/4_R/2_R": bigs, "max_index_records": maxIdx, "bound_index": H * V})
 	}
 }
 
